@@ -301,6 +301,17 @@ Theorem C10_pdr_enum_oracle_truthful :
 Proof. exact enum_solve_truthful. Qed.
 Print Assumptions C10_pdr_enum_oracle_truthful.
 
+(** The oracle hypothesis can be TESTED on a recorded answer: [answer_ok] (executable, applied by the
+    driver to every answer of the real solver on systems with few states) decides [truthful]. *)
+Theorem C10_pdr_answer_check_exact :
+  forall (lit : Type) (lit_eqb : lit -> lit -> bool) (St EM : Type) (lit_holds : lit -> St -> bool) (bad0 : St -> bool)
+         (step0 trans : St -> St -> bool) (bad : St -> bool) (states : list St),
+    (forall s, List.In s states) ->
+    forall q a, answer_ok lit St EM lit_holds bad0 step0 trans bad states lit_eqb q a = true <->
+                truthful lit lit_eqb St EM lit_holds bad0 step0 trans bad q a.
+Proof. exact answer_ok_truthful. Qed.
+Print Assumptions C10_pdr_answer_check_exact.
+
 (** Non-vacuity: the model runs.  Two-bit states 0..3, literals (bit, polarity); the counter
     0 -> 1 -> 2 -> 0 (3 steps to 0); with bad = 3 the model answers Success (generalisation on and
     off), with bad = 2 it answers Fail with the BMC oracle's witness. *)
